@@ -4,6 +4,7 @@ package c11
 import (
 	"bytes"
 	"fmt"
+	"os"
 	"runtime"
 	"testing"
 	"time"
@@ -28,9 +29,19 @@ type Case struct {
 	Gate   bool       `json:"gate"`             // gate writer (deterministic) instead of latency writer
 	Delays []int      `json:"writer_delays_us"` // latency writer script
 	Procs  int        `json:"gomaxprocs"`
+	// LongGate: the gate stays shut for several seconds instead of 120 ms ("however slow the writer is":
+	// an implementation that waits for its writers only for a grace period returns inside that window).
+	LongGate bool `json:"long_gate"`
 }
 
 const window = 120 * time.Millisecond
+
+func longWindow() time.Duration {
+	if os.Getenv("VERIF_TIER") == "thorough" {
+		return 6500 * time.Millisecond
+	}
+	return 2600 * time.Millisecond
+}
 
 func run(app string, input []byte, w interface {
 	Write([]byte) (int, error)
@@ -107,7 +118,12 @@ func check(c Case, o *stats.Obs) error {
 			close(g.Release)
 			o.Key = c.App + "/returned-while-write-blocked"
 			return fmt.Errorf("%s: HandleMessages returned while the writer was still blocked in the write that completes the output (%d of %d bytes written at return)", c.App, len(held), len(want))
-		case <-time.After(window):
+		case <-time.After(func() time.Duration {
+			if c.LongGate {
+				return longWindow()
+			}
+			return window
+		}()):
 		}
 		close(g.Release)
 		select {
@@ -121,6 +137,9 @@ func check(c Case, o *stats.Obs) error {
 			return fmt.Errorf("%s: output at return differs from the complete output: %s", c.App, appsup.Diff(got, want))
 		}
 		o.Class("gate")
+		if c.LongGate {
+			o.Class("gate-held-for-seconds")
+		}
 	} else {
 		w := &appsup.LatencyWriter{}
 		for _, d := range c.Delays {
@@ -186,6 +205,7 @@ func gen1(t *rapid.T) Case {
 		c.Stream.Segs = append(c.Stream.Segs, gen.Segment{Kind: "truncated", Note: note, Data: d})
 	}
 	c.Gate = rapid.Bool().Draw(t, "gate")
+	c.LongGate = c.Gate && rapid.IntRange(0, 19).Draw(t, "longGate") == 11
 	if !c.Gate {
 		n := rapid.IntRange(1, 3).Draw(t, "nDelays")
 		for i := 0; i < n; i++ {
